@@ -32,6 +32,17 @@ import (
 	"github.com/enfein/mieru/v3/pkg/stderror"
 )
 
+// udpLoopError gives every error recorded by the goroutines of a UDP loop
+// the same concrete type, as atomic.Value requires.
+type udpLoopError struct {
+	err error
+}
+
+// storeFirstUDPLoopError records the first error of a UDP loop.
+func storeFirstUDPLoopError(v *atomic.Value, err error) {
+	v.CompareAndSwap(nil, udpLoopError{err: err})
+}
+
 // RunUDPAssociateLoop exchanges socks5 UDP packets between a socks5 proxy client and a mieru proxy server,
 // the proxy server is connected via the PacketOverStreamTunnel.
 func RunUDPAssociateLoop(udpConn *net.UDPConn, conn *apicommon.PacketOverStreamTunnel, resolver apicommon.DNSResolver) error {
@@ -53,13 +64,13 @@ func RunUDPAssociateLoop(udpConn *net.UDPConn, conn *apicommon.PacketOverStreamT
 		for {
 			n, err = conn.Read(buf)
 			if err != nil {
-				udpErr.Store(err)
+				storeFirstUDPLoopError(&udpErr, err)
 				return
 			}
 
 			datagram, err := parseSocks5UDPDatagram(buf[:n])
 			if err != nil {
-				udpErr.Store(err)
+				storeFirstUDPLoopError(&udpErr, err)
 				UDPAssociateErrors.Add(1)
 				return
 			}
@@ -96,9 +107,7 @@ func RunUDPAssociateLoop(udpConn *net.UDPConn, conn *apicommon.PacketOverStreamT
 				if !stderror.IsEOF(err) && !stderror.IsClosed(err) {
 					log.Debugf("UDP associate %v Read() failed: %v", udpConn.LocalAddr(), err)
 				}
-				if udpErr.Load() == nil {
-					udpErr.Store(err)
-				}
+				storeFirstUDPLoopError(&udpErr, err)
 				return
 			}
 			var header []byte
@@ -112,9 +121,7 @@ func RunUDPAssociateLoop(udpConn *net.UDPConn, conn *apicommon.PacketOverStreamT
 			_, err = conn.Write(append(append([]byte(nil), header...), buf[:n]...))
 			if err != nil {
 				log.Debugf("UDP associate %v Write() to proxy client failed: %v", udpConn.LocalAddr(), err)
-				if udpErr.Load() == nil {
-					udpErr.Store(err)
-				}
+				storeFirstUDPLoopError(&udpErr, err)
 				return
 			}
 			UDPAssociateDownloadPackets.Add(1)
@@ -123,7 +130,7 @@ func RunUDPAssociateLoop(udpConn *net.UDPConn, conn *apicommon.PacketOverStreamT
 	}()
 
 	wg.Wait()
-	return udpErr.Load().(error)
+	return udpErr.Load().(udpLoopError).err
 }
 
 // RunUDPForwardingLoop exchanges socks5 UDP packets between a mieru proxy client and a socks5 proxy server,
@@ -140,9 +147,7 @@ func RunUDPForwardingLoop(udpConn *net.UDPConn, conn *apicommon.PacketOverStream
 		buf := make([]byte, 1)
 		_, err := ctrlConn.Read(buf)
 		if err != nil {
-			if udpErr.Load() == nil {
-				udpErr.Store(err)
-			}
+			storeFirstUDPLoopError(&udpErr, err)
 		}
 		udpConn.Close()
 		conn.Close()
@@ -156,9 +161,7 @@ func RunUDPForwardingLoop(udpConn *net.UDPConn, conn *apicommon.PacketOverStream
 		for {
 			n, err := conn.Read(buf)
 			if err != nil {
-				if udpErr.Load() == nil {
-					udpErr.Store(err)
-				}
+				storeFirstUDPLoopError(&udpErr, err)
 				return
 			}
 			ws, err := udpConn.WriteToUDP(buf[:n], downstreamAddr)
@@ -182,17 +185,13 @@ func RunUDPForwardingLoop(udpConn *net.UDPConn, conn *apicommon.PacketOverStream
 				if !stderror.IsEOF(err) && !stderror.IsClosed(err) {
 					log.Debugf("UDP forwarding %v ReadFromUDP() failed: %v", udpConn.LocalAddr(), err)
 				}
-				if udpErr.Load() == nil {
-					udpErr.Store(err)
-				}
+				storeFirstUDPLoopError(&udpErr, err)
 				return
 			}
 			_, err = conn.Write(buf[:n])
 			if err != nil {
 				log.Debugf("UDP forwarding %v Write() to client failed: %v", udpConn.LocalAddr(), err)
-				if udpErr.Load() == nil {
-					udpErr.Store(err)
-				}
+				storeFirstUDPLoopError(&udpErr, err)
 				return
 			}
 			UDPAssociateDownloadPackets.Add(1)
@@ -203,7 +202,7 @@ func RunUDPForwardingLoop(udpConn *net.UDPConn, conn *apicommon.PacketOverStream
 	wg.Wait()
 	ctrlConn.Close()
 	if err := udpErr.Load(); err != nil {
-		return err.(error)
+		return err.(udpLoopError).err
 	}
 	return nil
 }
